@@ -22,10 +22,13 @@ class Budget:
         return self.left >= 0
 
 
+_COLD = None
+
+
 def _fails(sc, prop, sig, budget, full_digest=False):
     if not budget.take():
         return None
-    run, viols, _ = decide(sc, prop, full_digest=full_digest)
+    run, viols, _ = decide(sc, prop, full_digest=full_digest, cold=_COLD if sc.get("cold") else None)
     for v in viols:
         if signature(v) == sig:
             return run, v
@@ -130,9 +133,11 @@ def _ddmin_switches(sc, prop, sig, budget):
     return sc
 
 
-def minimize(sc, prop, sig, budget_n=1500):
+def minimize(sc, prop, sig, budget_n=1500, cold=None):
     """sc must fail with ``sig`` (any strategy). Returns (minimised scenario with explicit
     schedule, violation record, executions used) or None if it cannot be reproduced."""
+    global _COLD
+    _COLD = cold
     budget = Budget(budget_n)
     cur = _search(sc, prop, sig, budget, tries=8)
     if cur is None:
